@@ -279,6 +279,7 @@ type TxSpec struct {
 	Mint      []AQ // policies must be policyOfKey(k) for MintKeys, unless RawMintPolicies
 	MintKeys  []int
 	Coll      []In
+	RefIns    []In // Babbage+ reference inputs (body key 18)
 	CollRet   *Out
 	TotalColl *uint64
 	NetID     *uint8
@@ -397,6 +398,13 @@ func (tx *TxSpec) BodyNode() (*xcbor.Node, []byte) {
 		}
 		if tx.TotalColl != nil {
 			add(17, xcbor.U(*tx.TotalColl))
+		}
+		if len(tx.RefIns) > 0 {
+			var rs []*xcbor.Node
+			for _, i := range sortIns(tx.RefIns) {
+				rs = append(rs, inputNode(i))
+			}
+			add(18, tx.setNode(rs))
 		}
 	}
 	if tx.Era >= Conway {
